@@ -79,7 +79,7 @@ fn token_unique_entities()
     let e1 = ent(1); let e2 = ent(2);
     let t = TypeId::of::<Ua>();
     let token = RevokeToken{
-        reactors: std::sync::Arc::from(vec![ReactorType::EntityMutation(e1, t), ReactorType::Broadcast(t), ReactorType::EntityInsertion(e2, t), ReactorType::Despawn(e1)].as_slice()),
+        reactors: { let a: std::sync::Arc<[ReactorType; 4]> = std::sync::Arc::new([ReactorType::EntityMutation(e1, t), ReactorType::Broadcast(t), ReactorType::EntityInsertion(e2, t), ReactorType::Despawn(e1)]); a },
         id: sysu(0),
     };
     let mut it = token.iter_unique_entities();
